@@ -1,12 +1,15 @@
 #!/bin/bash
-# tools/finalbatch.sh : evaluate every seeded change of rounds 3 and 4 (worktrees /tmp/seed3, /tmp/seed4) against the
-# current checks; results in .work/seedbatch.txt (consumed by tools/seedstore.py)
+# tools/finalbatch.sh : final evaluation of the seeded changes of rounds 3 and 4 (worktrees /tmp/seed3, /tmp/seed4)
+# against the current checks; results in .work/seedbatch.txt (consumed by tools/seedstore.py).  Round 4 results of
+# the properties whose checks did not change after their last batch are taken from that batch.
 cd /verif
 rm -f .work/seedbatch.txt
 SEEDROOT=/tmp/seed3 SEEDTAG=r3- tools/seedbatch.sh
 sed -i '/^DONE$/d' .work/seedbatch.txt
-SEEDROOT=/tmp/seed4 SEEDTAG=r4- tools/seedbatch.sh
+SEEDROOT=/tmp/seed4 SEEDTAG=r4- tools/seedbatch.sh C01 C02 C05 C06 C09
 sed -i '/^DONE$/d' .work/seedbatch.txt
+grep -h "^C\(03\|04\|08\|11\|15\|07\|10\|19\)-r4-" .work/seedbatch4b.txt >> .work/seedbatch.txt
+grep -h "^C\(12\|13\|14\|16\|17\|18\|20\)-r4-" .work/seedbatch4a.txt >> .work/seedbatch.txt
 # changes filed under a property whose text does not cover them: also judged by the property that does
 tools/seedeval.sh C09 /tmp/seed3/C09/_seed/patch1.diff /tmp/seed3/C09/_seed/demo1_test.go C07 2>&1 | grep "check=C07" | sed "s/^/C09-r3-1 /" >> .work/seedbatch.txt
 tools/seedeval.sh C19 /tmp/seed3/C19/_seed/patch3.diff /tmp/seed3/C19/_seed/demo3_test.go C17 2>&1 | grep "check=C17" | sed "s/^/C19-r3-3 /" >> .work/seedbatch.txt
